@@ -86,7 +86,7 @@ def run(pid, tier, seed, replay=None):
         scs = scenarios(pid, tier, seed)
         for cfg in {"C12": ["MC_Drop.cfg"], "C14": ["MC_Drop.cfg"], "C13": ["MC_Pipeline.cfg"], "C08": []}[pid]:
             if os.path.exists(os.path.join(SPEC, cfg)):
-                mod = "MCDrop.tla" if "Drop" in cfg else "MCPipeline.tla"
+                mod = "Drop.tla" if "Drop" in cfg else "MCPipeline.tla"
                 r = tlc_mc(mod, cfg, "%s_%s" % (pid, cfg[:-4]), workers=8)
                 mc.append({k: r[k] for k in ("cfg", "states", "distinct", "ok", "error", "wall_s")})
                 log("[mc] %s: %d distinct states, ok=%s (%.1fs)" % (cfg, r["distinct"], r["ok"], r["wall_s"]))
